@@ -884,6 +884,12 @@ def arc_shapes():
     A(P("two-arcs", SJ(2) + JJ(2), [D("a1"), L("acount", "z1"), D("z1")], [L("acount", "a2"), D("a2"), D("z2")],
         arcs={"A": {"h0": ["a1", "a2"], "cell": "pc"}, "Z": {"h0": ["z1", "z2"], "cell": "pd"}}))
     A(P("moved-into-thread", [I("spawn", "a2", v=2), rd("pc"), D("a1"), join(2)], [rd("pc"), D("a2")], arcs=a2))
+    # the surviving owner re-clones its (by then unique) handle after the other one was dropped remotely:
+    # the final drop must still be ordered after that remote drop
+    A(P("reclone-after-remote-drop", [spawn(2), L("aclone", "a1", o2="b1"), D("b1"), D("a1"), join(2)], [rd("pc"), D("a2")], arcs=a2))
+    A(P("reclone-raw-after-remote-drop", [spawn(2), L("aintoraw", "a1"), L("aclone", "a1", o2="r1"), D("r1"), D("a1"), join(2)], [rd("pc"), D("a2")], arcs=a2))
+    A(P("reclone-twice", [spawn(2), spawn(3), L("aclone", "a1", o2="b1"), D("a1"), L("aclone", "b1", o2="c1"), D("c1"), D("b1"), join(2), join(3)],
+        [rd("pc"), D("a2")], [rd("pc"), D("a3")], arcs=a3))
     return out
 
 
@@ -1084,6 +1090,10 @@ def future_shapes():
         A(P(f"handover[{k}]", [spawn(2), BO(k), rd("c"), join(2)], [wr("c"), st("f", 1, "rel"), WK]))
         A(P(f"already-ready[{k}]", [st("f", 1), BO(k)]))
         A(P(f"two-blockons[{k}]", [spawn(2), BO(k), BO(k), join(2)], [st("f", 1, "rel"), WK]))
+        # one AtomicWaker outlives a block_on: the second call's registration must replace the first one's
+        BG = I("blockon", "w", o2="g", k=k, ord="acq")
+        A(P(f"two-blockons-two-flags[{k}]", [spawn(2), BO(k), BG, join(2)], [st("f", 1, "rel"), st("g", 1, "rel"), WK]))
+        A(P(f"two-blockons-two-wakes[{k}]", [spawn(2), BO(k), BG, join(2)], [st("f", 1, "rel"), WK, st("g", 1, "rel"), WK]))
     # raw wakers: clones of the block_on waker in plain slots, no AtomicWaker lock in between; the wakers
     # first wait (relaxed, no ordering) until the future announced that it stashed its waker
     W8 = await_("fr", "rlx")
